@@ -304,6 +304,11 @@ def lib_parse(rec, cls, src, hint=None, tag='G3'):
         s = cls(src, template_hint=hint) if hint is not None else cls(src)
         name = s.template.name
         values = s.values
+        if name == 'unknown':
+            # since the C09 fix an OutputScript matching no template parses as the catch-all 'unknown' template instead of
+            # raising ValueError: that IS the library's "no template" verdict (all predicates must then be False)
+            rec.log(f'{tag}.unclassified_by/unknown-template')
+            return s, None, values
         return s, name, values
     except ValueError:
         rec.log(f'{tag}.unclassified_by/ValueError')
